@@ -101,7 +101,8 @@ def rule_a(prog, rep):
     f, m = _forward_match(crate)
     mirrored = {}
     for arm in m['arms']:
-        ctors = {short(ctor_name(nd)) for nd, a in walk(arm['body']) if ctor_name(nd) and 'ClientWriteCommand::' in ctor_name(nd)}
+        ctors = {short(ctor_name(nd)) for nd, a in crate.walk_fn(f) if ctor_name(nd) and 'ClientWriteCommand::' in ctor_name(nd) and
+                 any(a_ is arm['body'] for a_ in a)}       # through closures (`cond.then(|| Cmd(..))`) and new helpers
         for v in pat_variants(arm['pat']):
             if v == '_':
                 rep.violation('C11.a', 'forward_api_call:catch-all', f'{f.file}:{arm.get("ln")}', 'catch-all arm hides request kinds',
@@ -197,7 +198,9 @@ def rule_b(prog, rep):
             if sv not in MIRROR:
                 continue
             want, pos, has_force = MIRROR[sv]
-            ctors = [(nd, anc) for nd, anc in walk(arm['body']) if ctor_name(nd) and 'ClientWriteCommand::' in ctor_name(nd)]
+            # (found through crate.walk_fn so that closures - `cond.then(|| Cmd(..))` - and new helper functions are entered)
+            ctors = [(nd, anc) for nd, anc in crate.walk_fn(f) if ctor_name(nd) and 'ClientWriteCommand::' in ctor_name(nd) and
+                     any(a_ is arm['body'] for a_ in anc)]
             problems = []
             if len(ctors) != 1 or short(ctor_name(ctors[0][0])) != want:
                 problems.append(f'builds {[short(ctor_name(c[0])) for c in ctors]}')
